@@ -21,7 +21,7 @@ import vlib
 
 PID = "C05"
 WITNESSES = ["W_NoMidOffsetStream", "W_NoEOFThenMore", "W_NoStaleSize", "W_NoEmptyClose", "W_NoCancelHang",
-             "W_NoBigChunk", "W_NoResume", "W_NoLossInFlight", "W_NoRemoteRestart"]
+             "W_NoBigChunk", "W_NoResume", "W_NoLossInFlight", "W_NoRemoteRestart", "W_NoReadAhead", "W_NoSubmitterShort"]
 
 
 def _strip_props(text):
@@ -45,7 +45,8 @@ def _witnesses(base_cfg, wd, with_al):
     base = re.sub(r"(?m)^  MaxChunks = \d+", "  MaxChunks = 2", base)  # witnesses exist already in the smallest instance
     jobs = {}
     names = list(WITNESSES) + ["W_NoStatusAheadOfOutput"] + (["W_NoAlClosed"] if with_al else [])
-    remote_w = {"W_NoResume", "W_NoLossInFlight", "W_NoRemoteRestart", "W_NoAlClosed", "W_NoStatusAheadOfOutput"}
+    remote_w = {"W_NoResume", "W_NoLossInFlight", "W_NoRemoteRestart", "W_NoAlClosed", "W_NoStatusAheadOfOutput",
+                "W_NoReadAhead", "W_NoSubmitterShort"}
     for w in names:
         scen = '{"remote"}' if w in remote_w else '{"local"}'
         text = base.replace('Scenarios = {"local", "remote"}', "Scenarios = " + scen)
@@ -120,10 +121,10 @@ def run(tier, seed, replay=None):
             largs = largs[:-1] + [seed_r, "-only", rp["group"], "-cancel-groups", "-1"]
     elif quick:
         largs += ["-groups", "12", "-cancel-groups", "1", "-par", "6"]
-        rargs += ["-scenarios", "6", "-par", "6"]
+        rargs += ["-scenarios", "8", "-par", "8"]
     else:
         largs += ["-groups", "600", "-cancel-groups", "12", "-par", "8"]
-        rargs += ["-scenarios", "0", "-par", "8"]
+        rargs += ["-scenarios", "120", "-par", "10"]
 
     fl = ex.submit(vlib.harness_json, vres, largs, wd, 3000, None, "local") if largs else None
     fr = ex.submit(vlib.harness_json, vres, rargs, wd, 3000, None, "remote") if rargs else None
